@@ -54,6 +54,7 @@ func main() {
 	fmt.Println(lib.GenericWhere[int](4))
 	fmt.Println(second())
 	fmt.Println(dotCaller())
+	fmt.Println(lib.Plain(), lib.ViaMethod())
 	if len(os.Args) > 1 && os.Args[1] == "multiline" {
 		fmt.Println(lib.
 			Caller2())
@@ -73,7 +74,7 @@ func nested() string { return where() }
 
 import . "example.com/rev/dot"
 
-func dotCaller() string { return DotWhere() + " | " + where() + " | " + viaDot() }
+func dotCaller() string { return DotWhere() + " | " + where() + " | " + viaDot() + " | " + Plain() + " | " + ViaMethod() }
 
 func viaDot() string { return where() }
 ''',
@@ -88,6 +89,25 @@ func DotWhere() string {
 	pc, file, line, _ := runtime.Caller(0)
 	return fmt.Sprintf("%s:%d %s", file, line, runtime.FuncForPC(pc).Name())
 }
+
+// the same names as in package main and in the other library package: names are hashed per package
+type mainType struct{ n int }
+
+func (m *mainType) method() string { return plainFunc() + "/" + nested() }
+
+func plainFunc() string {
+	pc, file, line, _ := runtime.Caller(0)
+	return fmt.Sprintf("%s:%d %s", file, line, runtime.FuncForPC(pc).Name())
+}
+
+func nested() string {
+	pc, file, line, _ := runtime.Caller(1)
+	return fmt.Sprintf("%s:%d %s", file, line, runtime.FuncForPC(pc).Name())
+}
+
+func Plain() string { return plainFunc() }
+
+func ViaMethod() string { return (&mainType{1}).method() }
 ''',
     "lib/lib.go": '''package lib
 
@@ -117,6 +137,25 @@ func GenericWhere[T any](t T) string { return here(1) }
 type exploder struct{ m map[string]int }
 
 func Explode(e *exploder) { panic(fmt.Sprint("boom-", e == nil)) }
+
+// the same names as in package main and in the other library package: names are hashed per package
+type mainType struct{ n int }
+
+func (m *mainType) method() string { return plainFunc() + "/" + nested() }
+
+func plainFunc() string {
+	pc, file, line, _ := runtime.Caller(0)
+	return fmt.Sprintf("%s:%d %s", file, line, runtime.FuncForPC(pc).Name())
+}
+
+func nested() string {
+	pc, file, line, _ := runtime.Caller(1)
+	return fmt.Sprintf("%s:%d %s", file, line, runtime.FuncForPC(pc).Name())
+}
+
+func Plain() string { return plainFunc() }
+
+func ViaMethod() string { return (&mainType{1}).method() }
 ''',
 }
 
